@@ -286,7 +286,11 @@ def check_output_gates(rep, repo):
     # sensitive nodes: read LP variable values directly or through a local derived from such a read
     readers = lp_state_readers(repo)
     # the text being assembled (whatever is returned) collects gated and ungated pieces alike: it carries no taint itself
-    out_names = {x.id for r_ in ast.walk(f.node) if isinstance(r_, ast.Return) and r_.value is not None for x in ast.walk(r_.value) if isinstance(x, ast.Name)} | {'results'}
+    returned = {x.id for r_ in ast.walk(f.node) if isinstance(r_, ast.Return) and r_.value is not None for x in ast.walk(r_.value) if isinstance(x, ast.Name)}
+    accumulated = {n_.target.id for n_ in ast.walk(f.node) if isinstance(n_, ast.AugAssign) and isinstance(n_.target, ast.Name)} \
+        | {n_.func.value.id for n_ in ast.walk(f.node) if isinstance(n_, ast.Call) and isinstance(n_.func, ast.Attribute) and n_.func.attr in ('append', 'extend')
+           and isinstance(n_.func.value, ast.Name)}
+    out_names = (returned & accumulated) | {'results'}
     tainted = set()
     sens = []
     changed = True
